@@ -662,6 +662,67 @@ func TestVerifC19Pubsub(t *testing.T) {
 		ops, nclients := c19GenHistory(r, nq, 0)
 		c19AddPubCase(t, cs, "random", qs, ops, r.Intn(nclients))
 	}
+	// (appended after the random family so that its case ids stay what they were)
+	// directed: three buffered subscribers under the IDENTICAL query string whose buffers are
+	// full at the same publication (each must be cancelled with ErrOutOfCapacity after a strict
+	// prefix), next to one that keeps up; then resubscription of one of them
+	{
+		qs := [][]c19Cond{{{key: "tm.event", op: 4, kind: 0, s: "Tx"}}}
+		ev := []c19KV{{"tm.event", []string{"Tx"}}}
+		ops := []c19Op{{kind: 0, c: 0, q: 0, cap: 1}, {kind: 0, c: 1, q: 0, cap: 1}, {kind: 0, c: 2, q: 0, cap: 1},
+			{kind: 0, c: 3, q: 0, cap: 5}, {kind: 3, m: 0, ev: ev}, {kind: 3, m: 1, ev: ev}, {kind: 3, m: 2, ev: ev},
+			{kind: 4, c: 3, q: 0, n: 3}, {kind: 0, c: 1, q: 0, cap: 2}, {kind: 3, m: 3, ev: ev}, {kind: 1, c: 0, q: 0},
+			{kind: 3, m: 4, ev: ev}, {kind: 3, m: 5, ev: ev}, {kind: 3, m: 6, ev: ev}}
+		for c := 0; c < 4; c++ {
+			c19AddPubCase(t, cs, "directed-shared-query-overflow", qs, ops, c)
+		}
+	}
+	// random family: 2-5 clients subscribed with the identical query string (1-2 query strings
+	// in all), capacities 1-3 (one of them possibly roomy or unbuffered), bursts of matching
+	// publications with few or no reads in between, so that several buffers are full at the
+	// same publication; occasional unsubscribe / resubscribe
+	nb := vg.Scale(40, 1500)
+	for k := 0; k < nb; k++ {
+		r := root.Fork(uint64(1000000 + k))
+		nq := 1 + r.Intn(2)
+		qs := [][]c19Cond{{{key: "tm.event", op: 4, kind: 0, s: "Tx"}}}
+		if nq == 2 {
+			qs = append(qs, []c19Cond{{key: "x.n", op: 6, kind: 4}})
+		}
+		evs := [][]c19KV{{{"tm.event", []string{"Tx"}}, {"x.n", []string{"7"}}}, {{"tm.event", []string{"Tx"}}},
+			{{"x.n", []string{"1"}}}, {{"tm.event", []string{"NewBlock"}}}}
+		nclients := 2 + r.Intn(4)
+		var ops []c19Op
+		for c := 0; c < nclients; c++ {
+			cp := 1 + r.Intn(3)
+			if r.Chance(12) {
+				cp = []int{0, 5}[r.Intn(2)]
+			}
+			ops = append(ops, c19Op{kind: 0, c: c, q: 0, cap: cp})
+			if nq == 2 && r.Chance(40) {
+				ops = append(ops, c19Op{kind: 0, c: c, q: 1, cap: 1 + r.Intn(2)})
+			}
+		}
+		m := 0
+		for burst := 0; burst < 2+r.Intn(3); burst++ {
+			for i := 0; i < 2+r.Intn(4); i++ {
+				ops = append(ops, c19Op{kind: 3, m: m, ev: evs[r.Intn(len(evs))]})
+				m++
+				if r.Chance(15) {
+					ops = append(ops, c19Op{kind: 4, c: r.Intn(nclients), q: r.Intn(nq), n: 1 + r.Intn(2)})
+				}
+			}
+			switch r.Intn(4) {
+			case 0:
+				ops = append(ops, c19Op{kind: 0, c: r.Intn(nclients), q: r.Intn(nq), cap: 1 + r.Intn(2)})
+			case 1:
+				ops = append(ops, c19Op{kind: 1, c: r.Intn(nclients), q: r.Intn(nq)})
+			case 2:
+				ops = append(ops, c19Op{kind: 4, c: r.Intn(nclients), q: r.Intn(nq), n: 1 + r.Intn(3)})
+			}
+		}
+		c19AddPubCase(t, cs, "random-shared-query-bursts", qs, ops, r.Intn(nclients))
+	}
 	if err := cs.Write(); err != nil {
 		t.Fatal(err)
 	}
